@@ -137,6 +137,13 @@ func gen(r *vh.Rand) string {
 			steps = append(steps, "B")
 		}
 	}
+	if mode == "R" && n >= 2 && n <= 7 && r.Chance(1, 5) {
+		// one state, many draws: every minimiser must be reached about equally often
+		steps = steps[:0]
+		for j := 0; j < 48*n; j++ {
+			steps = append(steps, "b")
+		}
+	}
 	if steps[len(steps)-1] != "b" && steps[len(steps)-1] != "B" {
 		steps = append(steps, "b")
 	}
